@@ -223,9 +223,13 @@ class History:
             # visited before any quantity-bearing node
             scalar = self.rng.choice(["omitted", 1, 1.0, 2.0, 0.5])
             ws = [1.0 if scalar == "omitted" else float(scalar)] * n
-        bat = B.Batch(B.columns(recs), "dict")
+        # a dict of arrays or a numpy record array (a DataFrame needs string-expression quantities): the vectorised
+        # paths branch on the kind of container the batch is
+        rep = "recarray" if (self.rng.random() < 0.3 and self.force != "str") else "dict"
+        bat = B.Batch(B.columns(recs), rep)
         rows = B.rows(bat.saved, n)
-        desc = "%s.fill.numpy(%d rows, weights=%r)" % (m.tag, n, ws if scalar is None else scalar)
+        desc = "%s.fill.numpy(%d rows%s, weights=%r)" % (m.tag, n, " as a record array" if rep == "recarray" else "", ws if scalar is None else scalar)
+        self.count("op:fillnp:" + rep)
         self.log.append(desc)
         before = self.texts()
         try:
